@@ -378,7 +378,7 @@ class ProgGen:
         s = set()
         for x in self.scopes:
             s |= x
-        return s
+        return sorted(s)          # a list in a fixed order: every random choice must depend on the seed only, never on str hashing
 
     def word(self, forbid=''):
         rng = self.rng
@@ -620,7 +620,7 @@ class ProgGen:
 def gen_prog(rng, malformed=False):
     feats = {'newcommand', 'let', 'csname', 'expandafter'}
     if rng.random() < 0.35:
-        feats = set(x for x in feats if rng.random() < 0.5)
+        feats = set(x for x in sorted(feats) if rng.random() < 0.5)
     if malformed:
         # a truncated call can swallow a following \relax and hand it to a \def: redefining \relax at run time breaks
         # plasTeX's own number/argument readers (outside the model and outside NF-prog), so malformed programs carry none
